@@ -110,9 +110,11 @@ Definition propfail_C02 (cs : list scan_case) : list nat :=
                                                  | Some gi => check_C02_group (mk_ctx (sc_snap c) gi) (og_calls g) (og_state g)
                                                  | None => false end) (sc_obs c))) cs 0.
 Definition mismatches_C20 := mism true pi_none.
-(* C20 on an observed scan: no panic; a scan that returned nil processed every configured group *)
+(* C20 on an observed scan: no panic (4); the main loop, started on a world whose first run returns an error, returned it and
+   did not tick on (5); a scan that returned nil processed every configured group *)
 Definition propfail_C20 (cs : list scan_case) : list nat :=
-  indices_where (fun c => (sc_out c =? 4) || ((sc_out c =? 0) && negb (Nat.eqb (length (sc_obs c)) (length (s_groups (sc_snap c)))))) cs 0.
+  indices_where (fun c => (sc_out c =? 4) || (sc_out c =? 5)
+                          || ((sc_out c =? 0) && negb (Nat.eqb (length (sc_obs c)) (length (s_groups (sc_snap c)))))) cs 0.
 
 (* cases whose views are not well-formed (duplicate node names): expected none; reported as a generator error *)
 Definition illformed_scan (cs : list scan_case) : list nat :=
